@@ -20,7 +20,10 @@ Paths == [
     P4 |-> <<[t |-> 2, asns |-> <<A(0, 65001)>>], [t |-> 1, asns |-> <<A(0, 65010), A(1, 0)>>]>>,   \* sequence + set with 65536
     P5 |-> <<[t |-> 2, asns |-> <<A(0, 65001), A(0, 23456), A(0, 23456)>>]>>,   \* what a 2-byte speaker sends for P5x
     \* an aggregate seen through a 2-byte speaker: AS_TRANS in the sequence and in the set (goes with Q4)
-    P6 |-> <<[t |-> 2, asns |-> <<A(0, 65001), A(0, 23456), A(0, 65002)>>], [t |-> 1, asns |-> <<A(0, 23456), A(0, 65010), A(0, 65011)>>]>> ]
+    P6 |-> <<[t |-> 2, asns |-> <<A(0, 65001), A(0, 23456), A(0, 65002)>>], [t |-> 1, asns |-> <<A(0, 23456), A(0, 65010), A(0, 65011)>>]>>,
+    \* the same ten bytes (02 02 fc00 fc01 02 01 fde8): two sequences of 2-byte AS numbers, or one sequence of two 4-byte ones
+    P7 |-> <<[t |-> 2, asns |-> <<A(0, 64512), A(0, 64513)>>], [t |-> 2, asns |-> <<A(0, 65000)>>]>>,
+    P8 |-> <<[t |-> 2, asns |-> <<A(64512, 64513), A(513, 65000)>>]>> ]
 \* AS4_PATH companions (only meaningful on 2-byte sessions)
 As4Paths == [
     none |-> <<>>,
@@ -52,7 +55,7 @@ Dom == [
     extnh |-> BOOLEAN,               \* RFC 8950 extended next hop negotiated for ipv4 unicast
     mpr4 |-> BOOLEAN,                \* the MP_REACH_NLRI carries IPv4 prefixes with an IPv6 next hop (needs extnh)
     origin |-> {0, 1, 2},
-    path |-> {"P0", "P1", "P2", "P3", "P4", "P5", "P6"},
+    path |-> {"P0", "P1", "P2", "P3", "P4", "P5", "P6", "P7", "P8"},
     as4 |-> {"none", "Q1", "Q2", "Q3", "Q4"},
     med |-> {"none", "zero", "ten", "max"},
     pref |-> {"none", "hundred", "big"},
@@ -88,8 +91,8 @@ Fields == DOMAIN Base
 \* rows that are not well-formed UPDATEs for their session
 WellFormed(u) ==
     /\ (u.as4 # "none" => ~u.asn4)                                \* AS4_PATH only travels on 2-byte sessions
-    /\ (u.asn4 \/ u.path \in {"P0", "P1", "P2", "P5", "P6"})             \* a 2-byte AS_PATH cannot carry 4-byte numbers
-    /\ (u.path \in {"P5", "P6"} => ~u.asn4)
+    /\ (u.asn4 \/ u.path \in {"P0", "P1", "P2", "P5", "P6", "P7"})             \* a 2-byte AS_PATH cannot carry 4-byte numbers
+    /\ (u.path \in {"P5", "P6", "P7"} => ~u.asn4)
     /\ (u.mprLL => u.mpr # "none")
     /\ (u.mpr4 => u.extnh /\ u.mpr # "none")
     /\ ~(u.mpu = "eor" /\ (u.nlri # "none" \/ u.wd # "none" \/ u.mpr # "none"))
